@@ -258,7 +258,11 @@ impl Searcher {
 
                     best_mv = line.first().copied();
 
-                    assert!(!line.is_empty());
+                    // A root without legal moves (checkmate or stalemate) has no line
+                    // to report and searching it any deeper cannot change that
+                    if line.is_empty() {
+                        break;
+                    }
 
                     // Make sure that the line we're returning is actually valid
                     debug_assert!({
@@ -290,19 +294,17 @@ impl Searcher {
                 Err(SearchInterrupt) => {
                     if let Some(x) = transpositions.find(game_state_hash) {
                         if x.evaluation > best_eval {
-                            f(StatusEvent::BestMove {
-                                evaluation: x.evaluation,
-                                line: {
-                                    let line: Vec<Move> = transpositions
-                                        .iter_moves(&hasher, &game_state, depth)
-                                        .map(|r| r.0)
-                                        .collect();
+                            let line: Vec<Move> = transpositions
+                                .iter_moves(&hasher, &game_state, depth)
+                                .map(|r| r.0)
+                                .collect();
 
-                                    assert!(!line.is_empty());
-
-                                    line
-                                },
-                            });
+                            if !line.is_empty() {
+                                f(StatusEvent::BestMove {
+                                    evaluation: x.evaluation,
+                                    line,
+                                });
+                            }
                         }
                     }
 
